@@ -2,6 +2,7 @@ SPECIFICATION Spec
 CONSTANTS
   W = 4
   Anns = {"both"}
+  Devs = {"all"}
   Sizes = {0, 1, 2, 4}
   MaxFaults = 0
   MaxInject = 1
